@@ -557,3 +557,4 @@ def run(ctx):
     ctx.include('C01', 'corners and edge searches are evaluated by the tape evaluators', skip=())
     ctx.include('C02', 'corners and edge searches are evaluated by the native evaluators', skip=())
     ctx.include('C05', 'vertex placement uses the gradient evaluators', skip=())
+    ctx.include('C14', 'cell corners, edge searches and gradients are sampled through world_to_model', only=('R4',))
